@@ -71,14 +71,14 @@ PROPS["C11"] = dict(
     explanation=MIX)
 
 PROPS["C05"] = dict(
-    level="other", claimed=True,
-    level_text='Kani on the real FRI verifier with doubles for channel, hasher and coin: the degree-truncation rule of FriVerifier::new, reseed-then-draw per layer commitment, the remainder degree bound, remainder bound to its commitment, missing commitment refused; num_fri_layers for all schedules. Native bounded stand-in: polynomials above the claimed degree bound are refused, a flipped proof bit is refused, claimed evaluations that differ from the committed layer at a single queried position are refused, read_layer_queries returns values iff verify_batch accepts the opening.',
+    level="other", claimed=True, verus=True,
+    level_text='Verus (unit friverifv, body cut out of /repo, abstract channel / coin / field): FriVerifier::new for EVERY number of layer commitments - a list whose length is not the number of folding steps plus one is refused before the coin is touched, otherwise the coin sees exactly reseed(c_0), draw, reseed(c_1), draw, ..., the challenge stored for layer i is the one drawn after c_i, and DegreeTruncation is returned exactly at the first non-final depth whose running degree bound plus one is not a multiple of the folding factor. Kani on the real FRI verifier with doubles for channel, hasher and coin: the degree-truncation rule of FriVerifier::new, reseed-then-draw per layer commitment, the remainder degree bound, remainder bound to its commitment, missing commitment refused; num_fri_layers for all schedules. Native bounded stand-in: polynomials above the claimed degree bound are refused, a flipped proof bit is refused, claimed evaluations that differ from the committed layer at a single queried position are refused, read_layer_queries returns values iff verify_batch accepts the opening.',
     level_note='Bounded shapes (stated per obligation / stand-in). Not decided: folding consistency for symbolic field values; anything probabilistic (distance from low degree).',
     explanation=MIX)
 
 PROPS["C04"] = dict(
-    level="other", claimed=True,
-    level_text="Kani on the real channel code with doubles (Air, hasher, coin): every ProverChannel send / commit records the message in the proof and reseeds the coin with exactly that message; the seed is hash(context || public inputs); query positions come from draw_integers with the ground nonce; FriVerifier::new reseeds-then-draws per commitment in order; the remainder polynomial carried in the proof is the one whose commitment was absorbed (also for layer-less proofs); the seed elements bind the proof context (contexts that differ only in their trace metadata are absorbed differently; bounded); Verus (unit coinv): the coin's state machine for every hasher; the integer absorbed by merge_with_int (grinding nonce) is injective for the three Rescue hashers. Native bounded stand-in: the real prover and verifier run with a recording coin and both operation sequences are compared with the transcript the protocol requires (absorbed values recomputed from the proof bytes, GKR randomness before auxiliary randomness, every challenge after the messages that precede it, identical challenge values), on single-segment, auxiliary and Lagrange-kernel traces over three extension degrees and two hashers.",
+    level="other", claimed=True, verus=True,
+    level_text="Verus (unit friverifv, body cut out of /repo, abstract channel / coin / field): FriVerifier::new for EVERY number of layer commitments - a list whose length is not the number of folding steps plus one is refused before the coin is touched, otherwise the coin sees exactly reseed(c_0), draw, reseed(c_1), draw, ..., the challenge stored for layer i is the one drawn after c_i, and DegreeTruncation is returned exactly at the first non-final depth whose running degree bound plus one is not a multiple of the folding factor. Kani on the real channel code with doubles (Air, hasher, coin): every ProverChannel send / commit records the message in the proof and reseeds the coin with exactly that message; the seed is hash(context || public inputs); query positions come from draw_integers with the ground nonce; FriVerifier::new reseeds-then-draws per commitment in order; the remainder polynomial carried in the proof is the one whose commitment was absorbed (also for layer-less proofs); the seed elements bind the proof context (contexts that differ only in their trace metadata are absorbed differently; bounded); Verus (unit coinv): the coin's state machine for every hasher; the integer absorbed by merge_with_int (grinding nonce) is injective for the three Rescue hashers. Native bounded stand-in: the real prover and verifier run with a recording coin and both operation sequences are compared with the transcript the protocol requires (absorbed values recomputed from the proof bytes, GKR randomness before auxiliary randomness, every challenge after the messages that precede it, identical challenge values), on single-segment, auxiliary and Lagrange-kernel traces over three extension degrees and two hashers.",
     level_note="Prover::generate_proof and perform_verification are generic over user types and out of both verifiers' reach: their order of coin operations is observed on the stand-in's grid, not proved. One asymmetry is tolerated: the verifier draws an unused folding challenge after the FRI remainder commitment (DESIGN.md 9.1).",
     explanation=MIX)
 PROPS["C03"] = dict(
